@@ -988,7 +988,11 @@ def rule_r12(prog, res) -> None:
                 continue
             n += 1
             res.touch(m)
-            opens = [e for e, _f in S.may(m) if e.kind == "fs" and e.op == "open" and e.mode and e.mode[0] in "wax"]
+            scope_ = [m] + [g for g in m.module.all_funcs if g.parent is m]  # closures handed to a helper (call_on_root(write)) count
+            opens = [e for g in scope_ for e, _f in S.may(g) if e.kind == "fs" and e.op == "open" and e.mode and e.mode[0] in "wax"]
+            if not opens:
+                # a bound super() method kept in a local and called from the closure: parent = super().to_file
+                opens = [1 for g in scope_ for x in ast.walk(g.node) if isinstance(x, ast.Attribute) and x.attr == name and isinstance(x.value, ast.Call) and isinstance(x.value.func, ast.Name) and x.value.func.id == "super" and any(e.kind == "fs" and e.op == "open" and e.mode and e.mode[0] in "wax" for b_ in prog.mro(ci)[1:] if hasattr(b_, "methods") and name in b_.methods for e, _f in S.may(b_.methods[name]))]
             if opens:
                 res.ok("C11.R12", res.site(m), "opens its destination for writing")
             else:
